@@ -102,7 +102,8 @@ def one(ctx, rng, xr):
     for _ in range(npos):
         sh = str(rng.choice(SHAPES))
         e = shape1d(rng, nf, sh)
-        E = spread2d(rng, e, th, str(rng.choice(["same", "vary"]))) * float(rng.choice([1.0, 0.125, 4.0]))
+        # energy level: exact powers of two down to nearly calm / ice-covered points (Hs of micrometres)
+        E = spread2d(rng, e, th, str(rng.choice(["same", "vary"]))) * float(rng.choice([1.0, 0.125, 4.0, 1.0, 0.125, 4.0, 2.0 ** -20, 2.0 ** -30, 2.0 ** -40]))
         shapes.append(sh)
         A.append(E)
     A = np.array(A).reshape(tuple(sizes) + (nf, len(th)))
